@@ -9,7 +9,8 @@ import shutil
 
 from . import VERIF, REPO, tlc
 
-EVIDENCE = os.path.join(VERIF, "evidence")
+# evidence of a run against a scratch tree (seeded / benign change experiments) must not replace the evidence for /repo
+EVIDENCE = os.path.join(VERIF, "evidence") if os.path.realpath(REPO) == "/repo" else os.path.join(VERIF, "build", "evidence-scratch")
 REPLAYS = os.path.join(VERIF, "build", "replay")
 FINDINGS = os.path.join(VERIF, "known_findings.json")
 
